@@ -429,6 +429,8 @@ def _replay_failures(mod, case):
 
 
 def main(prop, tier, replay_path=None):
+    import warnings
+    warnings.simplefilter("ignore")  # e.g. re's FutureWarning on generated patterns
     t0 = time.time()
     assert_tree()
     modname = "vf.checks." + prop.lower()
@@ -491,6 +493,8 @@ def main(prop, tier, replay_path=None):
         print("KNOWN-FINDING: property=%s %s (%d cases, key=%s)" % (prop, info["desc"], info["cases"], key))
 
     rdir = os.path.join(ROOT, "replays", prop)
+    import shutil
+    shutil.rmtree(rdir, ignore_errors=True)  # replay files of earlier runs
     for sig, n, fs in new_sigs[:10]:
         violations += 1
         f0 = min(fs, key=lambda f: len(json.dumps(f["case"], default=repr)))
